@@ -161,6 +161,12 @@ func containsPkg(l []*extractor.Package, p *extractor.Package) bool {
 	return false
 }
 
+// layerFor gives the i-th package of a batch its layer: indices differ, every other layer has the same diff ID
+// (identical content at two positions of the image, e.g. a repeated COPY step).
+func layerFor(i int) *extractor.LayerDetails {
+	return &extractor.LayerDetails{Index: i, DiffID: fmt.Sprintf("sha256:%04d", i%2), Command: fmt.Sprintf("COPY step %d /x", i), InBaseImage: i%3 == 0}
+}
+
 func layerEq(ld *extractor.LayerDetails, pl *spb.LayerDetails) bool {
 	if ld == nil || pl == nil {
 		return ld == nil && pl == nil
@@ -271,11 +277,22 @@ func batchFacts(b *batch) []*factRec {
 	for i, p := range b.Pkgs {
 		cp := *p
 		if p.LayerDetails == nil {
-			cp.LayerDetails = testLayer
+			cp.LayerDetails = layerFor(i)
 		} else {
 			cp.LayerDetails = nil
 		}
 		flipped[i] = &cp
+	}
+	// the variant always holds packages of several layers, two of which have the same content (same diff ID,
+	// different index / command): further copies of the first package fill a short batch up
+	nExtra := 0
+	if len(b.Pkgs) > 0 && len(b.Pkgs) < 4 {
+		nExtra = 4 - len(b.Pkgs)
+	}
+	for j := 0; j < nExtra; j++ {
+		cp := *b.Pkgs[0]
+		cp.LayerDetails = layerFor(len(b.Pkgs) + j)
+		flipped = append(flipped, &cp)
 	}
 	var pr, prAlt *spb.ScanResult
 	pnProto := Safely(func() { pr, _ = sproto.ScanResultToProto(scanResultOf(b.Pkgs)) })
@@ -335,8 +352,13 @@ func batchFacts(b *batch) []*factRec {
 			if pnAlt != "" {
 				f.Panics = append(f.Panics, "proto")
 				f.Detail = append(f.Detail, "ScanResultToProto panics (layer variant): "+firstLine(pnAlt))
-			} else if prAlt != nil && prAlt.GetInventory() != nil && len(prAlt.GetInventory().GetPackages()) == len(b.Pkgs) {
+			} else if prAlt != nil && prAlt.GetInventory() != nil && len(prAlt.GetInventory().GetPackages()) == len(flipped) {
 				f.Proto.LayerAlt = layerEq(flipped[i].LayerDetails, prAlt.GetInventory().GetPackages()[i].GetLayerDetails())
+				if i == 0 {
+					for j := len(b.Pkgs); j < len(flipped); j++ {
+						f.Proto.LayerAlt = f.Proto.LayerAlt && layerEq(flipped[j].LayerDetails, prAlt.GetInventory().GetPackages()[j].GetLayerDetails())
+					}
+				}
 			}
 			for k, ok := range map[string]bool{"name": f.Proto.Name, "version": f.Proto.Version, "locations": f.Proto.Locations, "purl": f.Proto.Purl,
 				"layer details": f.Proto.Layer && f.Proto.LayerAlt, "extractor": f.Proto.Extractor, "ecosystem": f.Proto.Ecosystem} {
